@@ -213,10 +213,19 @@ func (mt *MarkdownTable) emitRow(
 			return err
 		}
 	}
-	if _, err := fmt.Fprint(w, mt.mdPaddedCellEscape(cells, widths, alignments, i), barRight); err != nil {
-		return err
+	if max > 0 {
+		if _, err := fmt.Fprint(w, mt.mdPaddedCellEscape(cells, widths, alignments, i), barRight); err != nil {
+			return err
+		}
+		i++
+	} else if columnCount > 0 {
+		// a row with no cells at all: the opening bar already ended in a
+		// space, so the first padding column only needs its closing bar
+		if _, err := io.WriteString(w, "|"); err != nil {
+			return err
+		}
+		i++
 	}
-	i++
 	for ; i < columnCount; i++ {
 		// these are the extra columns, always have one whitespace before bar
 		if _, err := io.WriteString(w, " |"); err != nil {
